@@ -209,6 +209,7 @@ func main() {
 	keep := flag.Bool("keep", false, "keep the scratch directory")
 	selftest := flag.Bool("selftest", false, "determinism self-test instead of a check")
 	noEvidence := flag.Bool("no-evidence", false, "do not write the evidence file")
+	covOut := flag.String("sitehits", "", "debug: write 'site hits' lines to this file")
 	flag.IntVar(&maxViol, "maxviol", 3, "violations shrunk and reported per worker")
 	flag.DurationVar(&shrinkLimit, "shrink", 60*time.Second, "time limit for minimising one violation")
 	flag.Parse()
@@ -493,6 +494,15 @@ func main() {
 			if h > 0 {
 				pre++
 			}
+		}
+		if *covOut != "" {
+			var hb strings.Builder
+			for i, h := range total.SiteHits {
+				if i > 0 {
+					fmt.Fprintf(&hb, "%d %d\n", i, h)
+				}
+			}
+			_ = os.WriteFile(*covOut, []byte(hb.String()), 0o644)
 		}
 		cov["yield_sites_covered"] = hit
 		cov["yield_sites_preempted_at_least_once"] = pre
